@@ -39,7 +39,10 @@ pub type MResult<T> = Result<T, Mach>;
 pub fn mach<T>(s: impl Into<String>) -> MResult<T> { Err(Mach(s.into())) }
 
 /// Enter a private mount namespace and mount the sacrificial tmpfs (with its own /proc) on /verif/.jail.
-pub fn enter_jail() -> MResult<()> {
+pub fn enter_jail() -> MResult<()> { enter_jail_opts(None) }
+
+/// `proc_opts`: mount options of the jail's /proc (it plays the role of "the host's /proc": hidepid=, subset=pid)
+pub fn enter_jail_opts(proc_opts: Option<&str>) -> MResult<()> {
     unsafe {
         if libc::unshare(libc::CLONE_NEWNS) != 0 { return mach(format!("unshare(CLONE_NEWNS): errno {}", errno())); }
         let none = cs("none");
@@ -57,7 +60,8 @@ pub fn enter_jail() -> MResult<()> {
         std::fs::create_dir_all(out("/proc")).map_err(|e| Mach(format!("mkdir jail/proc: {}", e)))?;
         let p = cs(&out("/proc"));
         let proc_ = cs("proc");
-        if libc::mount(proc_.as_ptr(), p.as_ptr(), proc_.as_ptr(), 0, std::ptr::null()) != 0 {
+        let po = proc_opts.map(cs);
+        if libc::mount(proc_.as_ptr(), p.as_ptr(), proc_.as_ptr(), 0, po.as_ref().map(|c| c.as_ptr() as *const libc::c_void).unwrap_or(std::ptr::null())) != 0 {
             return mach(format!("mount proc in jail: errno {}", errno()));
         }
     }
